@@ -24,6 +24,7 @@ THEOREMS = [
     'Ndn.C06.tasks_never_partial', 'Ndn.C06.tasks_end_mid_packet', 'Ndn.C06.tasks_end_shuts_down',
     'Ndn.C06.tasks_shutdown_guarantee', 'Ndn.C06.tasks_never_withdrawn', 'Ndn.C06.tasks_isolated',
     'Ndn.C06.tasks_tables_exactly_once', 'Ndn.C06.tasks_last_pass_after_cleanup', 'Ndn.C06.tasks_no_background_error',
+    'Ndn.C06.tasks_transport_error', 'Ndn.C06.tasks_ended_not_running',
     'Ndn.C06.udp_tasks_exactly_once_in_order', 'Ndn.C06.udp_tasks_no_callback_error', 'Ndn.C06.udp_tasks_isolated',
 ]
 PARTIAL = {}
